@@ -400,5 +400,63 @@ theorem java_eq_c_CS_Photo_Partial (hN : inI32 (T.NE_Photo_Partial_Kissel Z.toNa
   jeq_auto
 end kissel
 
+section fi
+variable (T : Tables ℝ) (Z : Int) (hZ : inI32 Z) (E : ℝ) (s : Slot) (hs : s.isFull = false)
+include hZ hs
+
+/-- `Fi`: Java hands `NE_Fii_arr[Z]` (not `NE_Fi_arr[Z]`) to `splint` as the length of the `E_Fi`/`Fi` vectors (Xraylib.java:3263);
+the C code uses `NE_Fi[Z]` (src/fi.c).  Equivalent exactly where the two counts agree. -/
+theorem java_eq_c_Fi_partial (hN : inI32 (T.NE_Fi Z.toNat)) (hEq : T.NE_Fii Z.toNat = T.NE_Fi Z.toNat) :
+    JRel (JGen.Fi (JTables.ofC T) Z E) (Gen.Fi T Z E s) s := by
+  rcases (jsplint_rel_vec (JTables.ofC T) (T.E_Fi_arr Z.toNat) (T.Fi_arr Z.toNat) (T.Fi_arr2 Z.toNat) (T.NE_Fi Z.toNat) hN
+    E s hs).cases with ⟨y, hc, hj⟩ | ⟨e, hc, hj⟩ | ⟨a, b, hc, hj⟩ | ⟨a, hc⟩ <;>
+  (jeq_start JGen.Fi Gen.Fi; jeq_auto)
+end fi
+
+/-- the full statement (no hypothesis on the two counts) -/
+def java_eq_c_Fi_full : Prop :=
+  ∀ (T : Tables ℝ) (Z : Int), inI32 Z → ∀ (E : ℝ) (s : Slot), s.isFull = false → inI32 (T.NE_Fi Z.toNat) →
+    JRel (JGen.Fi (JTables.ofC T) Z E) (Gen.Fi T Z E s) s
+
+instance : Inhabited (Vec ℝ) := ⟨⟨0, fun _ => 0⟩⟩
+/-- tables that are empty everywhere -/
+noncomputable def T0 : Tables ℝ := by constructor <;> exact default
+/-- witness: two knots (0, 1) ↦ 1 for `Fi`, but `NE_Fii = 1` -/
+noncomputable def Tfi : Tables ℝ :=
+  { T0 with NE_Fi := fun _ => 2, NE_Fii := fun _ => 1, E_Fi_arr := fun _ => ⟨2, fun k => (k : ℝ)⟩, Fi_arr := fun _ => ⟨2, fun _ => 1⟩,
+            Fi_arr2 := fun _ => ⟨2, fun _ => 0⟩ }
+
+theorem java_eq_c_Fi_full_fails : ¬ java_eq_c_Fi_full := by
+  intro h
+  have h1 := h Tfi 1 (by decide) 0.5 Slot.empty rfl (by decide)
+  have hc : Gen.Fi Tfi 1 0.5 Slot.empty = Except.ok (1, Slot.empty) := by
+    unfold Gen.Fi
+    simp [Tfi, rd1, splint, rdv, bisect, splintAt, splintCubic, deq_real]
+    norm_num
+  have hj : JGen.Fi (JTables.ofC Tfi) 1 0.5 = Except.error (JStop.iae "Spline extrapolation is not allowed") := by
+    unfold JGen.Fi JGen.splint
+    simp [Tfi, JTables.ofC, Hdr.ZMAX, jdyn, jvec, jrd, wrapI]
+    norm_num
+  rw [hc, hj] at h1
+  rcases h1 with ⟨_, h2⟩ | ⟨e, h2, _⟩
+  · cases h2
+  · norm_num at h2
+
+section biggs
+variable (T : Tables ℝ) (Z m : Int) (hZ : inI32 Z) (hm : inI32 m) (s : Slot) (hs : s.isFull = false)
+include hZ hm hs
+/-- `ElectronConfig_Biggs`: Java lacks the `shell < 0` test of C (src/comptonprofiles.c) and runs into an
+`ArrayIndexOutOfBoundsException` instead of the `IllegalArgumentException`: equivalent in the weak reading only -/
+theorem java_eqw_c_ElectronConfig_Biggs :
+    JRelW (JGen.ElectronConfig_Biggs (JTables.ofC T) Z m) (Gen.ElectronConfig_Biggs T Z m s) s := by
+  jeq_start JGen.ElectronConfig_Biggs Gen.ElectronConfig_Biggs
+  by_cases hz : Z < 1 ∨ Z > 120
+  · jeqw_auto
+  jeq_simp
+  simp only [jrd_jvec, rdv_def]
+  jeqw_auto
+end biggs
+
+
 end C19
 end Xrl
